@@ -618,6 +618,16 @@ Definition op_prog (frepr : fl -> str) (atomic : bool) (o : cop) : prog unit :=
   | KClear ws i => clear_job frepr [] ws i ret_res
   end.
 
+(* `job.statepoint = nsp` through a handle opened BY ID that has not read its state point yet (state point
+   cache miss): the setter creates an empty _StatePointDict and resets it - the re-key protocol runs WITHOUT the
+   validating read that every other route (sp[k] = v, update_statepoint, attribute edits) performs first.
+   [noload] selects that route; the operation (KRekey) and everything CInv / post_ok say about it are the same. *)
+Definition op_prog_r (frepr : fl -> str) (atomic : bool) (noload : bool) (o : cop) : prog unit :=
+  match o with
+  | KRekey ws i nsp => if noload then rekey frepr atomic [] ws i nsp ret_res else op_prog frepr atomic o
+  | _ => op_prog frepr atomic o
+  end.
+
 (* ------------------------------------------------------------------ the handle across two operations *)
 (* in-memory state of a job handle that matters for a later operation: where it points and the state point
    data it holds (None: not loaded yet — the first access reads and validates the file) *)
@@ -685,6 +695,22 @@ Section HANDLE.
 
   Definition follow_prog (o : cop) (fo : fop) : prog (ores * ores) :=
     op1_h o (fun h r1 => fop_prog h fo (fun r2 => Ret (r1, r2))).
+
+  (* the same for the whole-assignment route of a handle that never loaded its state point: the handle state at
+     the exits of the protocol is the one [rekey_h] carries (the restore re-reads the FILE, so it does not matter
+     that the handle had nothing in memory before) *)
+  Definition op1_h_r {A} (noload : bool) (o : cop) (k : hst -> ores -> prog A) : prog A :=
+    match o with
+    | KRekey ws i nsp =>
+        if noload then
+          rekey_h frepr atomic [] ws i nsp
+            (fun ex r => k {| hs_ws := ws; hs_id := fst ex; hs_sp := Some (snd ex) |} r)
+        else op1_h o k
+    | _ => op1_h o k
+    end.
+
+  Definition follow_prog_r (noload : bool) (o : cop) (fo : fop) : prog (ores * ores) :=
+    op1_h_r noload o (fun h r1 => fop_prog h fo (fun r2 => Ret (r1, r2))).
 End HANDLE.
 
 Definition is_removal (o : cop) : bool := match o with KRemove _ _ | KClear _ _ => true | _ => false end.
